@@ -5,6 +5,7 @@ import (
 	"go/constant"
 	"go/token"
 	"go/types"
+	"path/filepath"
 )
 
 // C09: constants and call shapes the tunnel model depends on.
@@ -66,8 +67,73 @@ func c09Tunnel(x *X, name string, body ast.Node) {
 	x.defBool(name+"WritesProxyHeader", len(x.calls(body, "WriteProxyHeader")) > 0)
 }
 
+// c09SockOpts lists, in source order, every socket-option / deadline / half-close call in the given files
+// of a package: "<file> <func>: <call>(<args>)" plus, when the call sits under an `if`, " if <cond>" of the
+// innermost one. A tunnel handler that starts to set deadlines, linger, buffers or half-closes changes the
+// transparency model and has to show up here.
+var c09SockOptNames = map[string]bool{"SetLinger": true, "SetDeadline": true, "SetReadDeadline": true,
+	"SetWriteDeadline": true, "SetNoDelay": true, "SetKeepAlive": true, "SetKeepAlivePeriod": true,
+	"SetKeepAliveConfig": true, "CloseWrite": true, "CloseRead": true, "SetReadBuffer": true, "SetWriteBuffer": true}
+
+func c09SockOpts(x *X, dir string, files map[string]bool) []string {
+	var out []string
+	for _, f := range x.files(dir) {
+		name := filepath.Base(x.fset.Position(f.Pos()).Filename)
+		if !files[name] {
+			continue
+		}
+		for _, d := range f.Decls {
+			fd, ok := d.(*ast.FuncDecl)
+			if !ok || fd.Body == nil {
+				continue
+			}
+			fn := fd.Name.Name
+			if fd.Recv != nil && len(fd.Recv.List) == 1 {
+				fn = x.src(fd.Recv.List[0].Type) + "." + fn
+			}
+			var ifs []*ast.IfStmt
+			var walk func(n ast.Node)
+			walk = func(n ast.Node) {
+				ast.Inspect(n, func(m ast.Node) bool {
+					switch v := m.(type) {
+					case *ast.IfStmt:
+						if v.Init != nil {
+							walk(v.Init)
+						}
+						walk(v.Cond)
+						ifs = append(ifs, v)
+						walk(v.Body)
+						ifs = ifs[:len(ifs)-1]
+						if v.Else != nil {
+							walk(v.Else)
+						}
+						return false
+					case *ast.CallExpr:
+						if sel, ok := v.Fun.(*ast.SelectorExpr); ok && c09SockOptNames[sel.Sel.Name] {
+							e := name + " " + fn + ": " + x.src(v)
+							if len(ifs) > 0 {
+								e += " if " + x.src(ifs[len(ifs)-1].Cond)
+							}
+							out = append(out, e)
+						}
+					}
+					return true
+				})
+			}
+			walk(fd.Body)
+		}
+	}
+	return out
+}
+
 func init() {
 	register("C09", func(x *X) error {
+		// socket options, deadlines and half-closes in the tunnel code paths
+		x.defStrList("tcpSockOpts", c09SockOpts(x, "proxy/tcp", map[string]bool{"tcp_proxy.go": true, "sni_proxy.go": true,
+			"tcp_dynamic_proxy.go": true, "proxy_proto.go": true, "copy_buffer.go": true}))
+		x.defStrList("wsSockOpts", c09SockOpts(x, "proxy", map[string]bool{"ws_handler.go": true}))
+		x.defStrList("serverSockOpts", c09SockOpts(x, "proxy/tcp", map[string]bool{"server.go": true}))
+
 		// copyBuffer: buffer size, and the loop's shape (Read, Write, the three exits)
 		if fd := x.funcDecl("proxy/tcp", "", "copyBuffer"); fd != nil {
 			found := false
